@@ -60,6 +60,15 @@ static void deviations(const gen::Spend& S, bool all_bits, std::vector<std::pair
         { auto e2 = enc; e2.insert(e2.begin() + i, bytes{0x00}); Tx t = S.tx; t.vin[S.nin].script_sig = rebuild(e2); out.push_back({"extra OP_0 before scriptSig push " + std::to_string(i), t}); }
     }
     if (!ops.empty() && in.witness.empty()) { auto e2 = enc; e2.push_back(bytes{0x51}); Tx t = S.tx; t.vin[S.nin].script_sig = rebuild(e2); out.push_back({"extra OP_1 at the end of scriptSig", t}); }
+    // P2SH-wrapped witness programs: the scriptSig must be exactly the canonical push of the redeem script (BIP141)
+    if (!ops.empty() && !in.witness.empty()) {
+        { auto e2 = enc; e2.push_back(bytes{0x51}); Tx t = S.tx; t.vin[S.nin].script_sig = rebuild(e2); out.push_back({"wrapped: extra OP_1 after the redeem-script push", t}); }
+        { auto e2 = enc; e2.push_back(bytes{0x61}); Tx t = S.tx; t.vin[S.nin].script_sig = rebuild(e2); out.push_back({"wrapped: OP_NOP after the redeem-script push", t}); }
+        { auto e2 = enc; e2.insert(e2.begin(), bytes{0x51}); Tx t = S.tx; t.vin[S.nin].script_sig = rebuild(e2); out.push_back({"wrapped: extra OP_1 before the redeem-script push", t}); }
+        if (ops.back().data.size() <= 75 && !ops.back().data.empty()) { auto e2 = enc; bytes nm{0x4c, uint8_t(ops.back().data.size())}; nm.insert(nm.end(), ops.back().data.begin(), ops.back().data.end()); e2.back() = nm; Tx t = S.tx; t.vin[S.nin].script_sig = rebuild(e2); out.push_back({"wrapped: redeem script pushed with OP_PUSHDATA1", t}); }
+    }
+    // the whole witness taken away (a native witness program must not be spent with an empty witness; a wrapped one becomes a plain P2SH spend of the program)
+    if (!in.witness.empty()) { Tx t = S.tx; t.vin[S.nin].witness.clear(); out.push_back({"whole witness removed", t}); }
     // signed fields altered after signing
     { Tx t = S.tx; t.vout[0].value ^= 1; out.push_back({"output amount altered after signing", t}); }
     { Tx t = S.tx; t.vout.back().spk[3] ^= 1; out.push_back({"output script altered after signing", t}); }
@@ -161,6 +170,13 @@ static void gen_c03(const std::string& tier, std::vector<Case>& cases) {
         gen::Spend S = gen::make_spend("p2tr-script", sh, 1, pl, annex);
         Case c; c.fund = S.fund; c.tx = S.tx; c.label = "p2tr-script " + std::to_string(checks) + " checks of one signature path=" + std::to_string(pl) + (annex ? " annex" : ""); c.klass = "tapscript-repeated-checks"; cases.push_back(c);
     }
+    // ... the annex counts towards the budget: annex lengths around the point where it decides (4 checks need 200; the witness without annex gives 191 at path length 0)
+    for (int checks : {3, 4, 5, 6}) for (int pl : {0, 1}) for (int al : {1, 2, 7, 8, 9, 30, 57, 58, 120, 250}) {
+        if (!th && (checks == 3 || (pl == 1 && al > 30))) continue;
+        gen::Shape sh = shape_of("p2tr-script", 0, 1); sh.tap_checks = checks; sh.annex_len = al;
+        gen::Spend S = gen::make_spend("p2tr-script", sh, 1, pl, true);
+        Case c; c.fund = S.fund; c.tx = S.tx; c.label = "p2tr-script " + std::to_string(checks) + " checks of one signature path=" + std::to_string(pl) + " annex of " + std::to_string(al) + " bytes"; c.klass = "tapscript-repeated-checks-annex-size"; cases.push_back(c);
+    }
     // the six real-chain pairs
     for (auto& v : CHAIN_VECTORS) { Case c; parse_tx(unhex(v.txin), c.fund); parse_tx(unhex(v.tx), c.tx); c.label = std::string("chain:") + v.name; c.klass = "chain"; cases.push_back(c); }
     // funding tx not referenced at all
@@ -196,6 +212,14 @@ static void gen_c03_extended(std::vector<Case>& cases) {
                 f.vout[1].spk = spk; t.vin[s2.pos].prev_hash = txid(f); });
         }
     }
+    // SIGPUSHONLY (not a standard flag): a scriptSig that is not push-only fails the spend whatever the output type
+    { gen::Spend S = gen::make_spend("p2pk", sh);
+      for (uint32_t fl : {F_STANDARD | F_SIGPUSHONLY, F_SIGPUSHONLY | F_P2SH, F_STANDARD}) {
+          mk("bare output OP_1 spent with scriptSig OP_NOP under " + alpha::flags_str(fl & (F_SIGPUSHONLY | F_CLEANSTACK)), S, [&](Tx& f, Tx& t) { f.vout[1].spk = unhex("51"); t.vin[1].prev_hash = txid(f); t.vin[1].script_sig = unhex("61"); });
+          cases.back().flags = fl;
+          mk("bare output OP_1 spent with scriptSig OP_1 OP_DROP under " + alpha::flags_str(fl & (F_SIGPUSHONLY | F_CLEANSTACK)), S, [&](Tx& f, Tx& t) { f.vout[1].spk = unhex("51"); t.vin[1].prev_hash = txid(f); t.vin[1].script_sig = unhex("5175"); });
+          cases.back().flags = fl;
+      } }
     // 521-byte witness item for a P2WSH script that drops it
     { gen::Spend S = gen::make_spend("p2wsh-checksig", sh);
       mk("521-byte witness stack item", S, [&](Tx& f, Tx& t) { bytes ws = unhex("7551"); f.vout[1].spk = gen::p2wsh_spk(ws); t.vin[1].prev_hash = txid(f); t.vin[1].witness = {bytes(521, 7), ws}; }); }
